@@ -138,6 +138,13 @@ def make_variant(n, bits, variant, dmask=None):
             if h >> i & 1:
                 W[i, i] = (1.0, 0.25, 4.0)[i % 3]
         return W
+    if variant == 'signed':        # as 'weighted', but half of the palette is negative: a negative weight is a connection too (binarize maps every non-zero to 1)
+        W = G.weight_by_position(A, palette=(0.5, -2.0, 3.0, -7.25))
+        h = _hash(bits, n)
+        for i in range(n):
+            if h >> i & 1:
+                W[i, i] = (1.0, -0.25, 4.0)[i % 3]
+        return W
     raise AssertionError(variant)
 
 
@@ -212,7 +219,7 @@ def _random_graph(rng, n, kind):
         for _ in range(rng.randint(0, n // 2 + 1)):
             u, v = rng.choice(n, 2, replace=False)
             A[u, v] = A[v, u] = 1
-    style = rng.randint(3)
+    style = rng.randint(4)
     if style >= 1:      # non-zero diagonal on some nodes
         for i in range(n):
             if rng.random_sample() < 0.4:
@@ -221,7 +228,11 @@ def _random_graph(rng, n, kind):
         Wt = rng.choice([0.5, 1.0, 2.0, 3.5, 10.0], size=(n, n))
         Wt = np.triu(Wt) + np.triu(Wt, 1).T
         A = A * Wt
-    return A, ('binary', 'binary-nonzero-diagonal', 'weighted')[style]
+    if style == 3:      # signed weights (symmetric): negative weights are connections as well
+        Wt = rng.choice([0.5, -1.0, 2.0, -3.5, -10.0], size=(n, n))
+        Wt = np.triu(Wt) + np.triu(Wt, 1).T
+        A = A * Wt
+    return A, ('binary', 'binary-nonzero-diagonal', 'weighted', 'signed-weighted')[style]
 
 
 def worker_random(task):
@@ -251,7 +262,8 @@ def run_bounded(run, tier, seed):
         bounds={'graphs': 'ALL labelled undirected graphs with n = 1..%d nodes (2^(n(n-1)/2) each; %d at n = %d), which includes all forests and all graphs with isolated nodes, '
                           'and every order in which get_components can meet the edges of a graph on <= %d nodes' % (6, G.n_und(6), 6, 6),
                 'variants': 'binary with empty diagonal (n <= 6); binary with non-zero diagonal (n <= 4: all 2^n - 1 non-empty diagonal patterns, n = 5..%d: one pattern per graph derived from the graph); '
-                            'weighted by position from {0.5, 2, 3, 7.25} with weighted diagonal entries on a derived node subset (n <= %d)' % (nmax, nmax),
+                            'weighted by position from {0.5, 2, 3, 7.25} with weighted diagonal entries on a derived node subset (n <= %d); signed weights by position from {0.5, -2, 3, -7.25} '
+                            'with signed diagonal entries (n <= %d)' % (nmax, nmax, nmax),
                 'distance routines': 'distance_bin, breadthdist, reachdist called on the binary pattern (A != 0) of the same matrix; off-diagonal cells compared'},
         rule='one case = one matrix; clauses: same label iff joined by a path (own union-find), labels exactly 1..m, comp_sizes[l-1] = #nodes labelled l, isolated nodes have size one, '
              'number_of_components = #labels, off-diagonal finite distance iff same label; non-trivial = some component has >= 3 nodes (partial sets had to be merged); distinct by (n, graph, variant, diagonal pattern)',
@@ -264,6 +276,7 @@ def run_bounded(run, tier, seed):
             tasks.append((n, ch, 'binary', None))
             if n <= nmax:
                 tasks.append((n, ch, 'weighted', None))
+                tasks.append((n, ch, 'signed', None))
                 tasks.append((n, ch, 'diag', list(range(1, 1 << n)) if n <= 4 else None))
     merge_all(run, part, pmap(worker, tasks))
 
@@ -291,6 +304,6 @@ def run_bounded(run, tier, seed):
     cnt = 400 if thorough else 120
     run.bounded_part(part, bounds={'n': '7..12', 'cases': 16 * cnt,
                                    'kinds': 'sparse G(n,p) with p*n in [0.3,1.6]; G(n,p) p in [0.1,0.5]; random forests; 1-3 disjoint long paths with shuffled node numbering plus isolated nodes; '
-                                            'perfect matching joined late by random edges; each binary / with non-zero diagonal / weighted'},
+                                            'perfect matching joined late by random edges; each binary / with non-zero diagonal / weighted / signed-weighted'},
                      rule='seeded random matrices (VERIF_SEED); same clauses as the exhaustive part; non-trivial = some component has >= 3 nodes', exhaustive=False)
     merge_all(run, part, pmap(worker_random, [(seed * 7919 + 100 + t, cnt, 7, 12) for t in range(16)]))
